@@ -796,3 +796,37 @@ VS_OLD = "        for (i, j) in itertools.combinations(pa(c, A), 2):\n          
 V("c16-silent-vs-sorted-parents", "C16", "silent", UT, VS_OLD, "        for (i, j) in itertools.combinations(sorted(pa(c, A)), 2):\n            if A[i, j] == 0 and A[j, i] == 0:\n                vstructs.append((i, c, j))\n", what="pairs taken from the sorted parent list: already i < j")
 V("c07-vs-unordered-triples", "C07", "fire", UT, VS_OLD, "        for (i, j) in itertools.combinations(pa(c, A), 2):\n            if A[i, j] == 0 and A[j, i] == 0:\n                vstructs.append((i, c, j))\n", rule="VS.condition", what="triples in set-iteration order: the same v-structure compares unequal between a PDAG and its extension (labels >= 8)")
 V("c10-vs-unordered-triples", "C10", "fire", UT, VS_OLD, "        for (i, j) in itertools.combinations(pa(c, A), 2):\n            if A[i, j] == 0 and A[j, i] == 0:\n                vstructs.append((i, c, j))\n", rule="VS.condition", what="triples in set-iteration order")
+
+# ------------------------------------------------------------------------------- equivalent spellings, batch 3
+# topological_ordering
+V("sp3-c03-while-sinks", "C03", "silent", UT, "    while len(sinks) > 0:\n        i = sinks.pop()\n", "    while sinks:\n        i = sinks.pop()\n", what="truthiness of the work list")
+V("sp3-c03-not-pa", "C03", "silent", UT, "            if len(pa(j, A)) == 0:\n                sinks.append(j)\n", "            if not pa(j, A):\n                sinks.append(j)\n", what="not set")
+V("sp3-c03-colsum", "C03", "silent", UT, "            if len(pa(j, A)) == 0:\n                sinks.append(j)\n", "            if A[:, j].sum() == 0:\n                sinks.append(j)\n", what="column sum of the 0/1 working copy")
+V("sp3-c03-flatnonzero", "C03", "silent", UT, "    sinks = list(np.where(A.sum(axis=0) == 0)[0])\n", "    sinks = list(np.flatnonzero(A.sum(axis=0) == 0))\n", what="flatnonzero")
+V("sp3-c03-any-axis", "C03", "silent", UT, "    sinks = list(np.where(A.sum(axis=0) == 0)[0])\n", "    sinks = list(np.where(~A.any(axis=0))[0])\n", what="no non-zero entry in the column")
+V("sp3-c03-deque", "C03", "silent", UT, "        i = sinks.pop()\n        ordering.append(i)\n", "        i = sinks.pop(0)\n        ordering.append(i)\n", what="FIFO instead of LIFO: another valid topological order")
+V("sp3-c03-no-copy", "C03", "silent", UT, "    A = A.copy()\n    sinks = list(", "    sinks = list(", what="redundant copy dropped (A is already a fresh array)")
+V("sp3-c03-undirected-any", "C03", "silent", UT, "    if only_undirected(A).sum() > 0:\n        raise ValueError(\"The given graph is not a DAG\")", "    if only_undirected(A).any():\n        raise ValueError(\"The given graph is not a DAG\")", what=".any()")
+# C15
+V("sp3-c15-anc-union", "C15", "silent", UT, "    anc = pa(i, A)\n    for j in pa(i, A):\n        anc |= ancestors(j, A)\n    return anc\n", "    anc = set(pa(i, A))\n    for j in pa(i, A):\n        anc = anc | ancestors(j, A)\n    return anc\n", what="union instead of in-place union")
+V("sp3-c15-anc-update", "C15", "silent", UT, "    anc = pa(i, A)\n    for j in pa(i, A):\n        anc |= ancestors(j, A)\n    return anc\n", "    anc = pa(i, A)\n    for j in pa(i, A):\n        anc.update(ancestors(j, A))\n    return anc\n", what="set.update")
+V("sp3-c15-sep-isdisjoint", "C15", "silent", UT, "                if set(path) & S == set():\n", "                if S.isdisjoint(path):\n", what="isdisjoint")
+V("sp3-c15-sep-not", "C15", "silent", UT, "                if set(path) & S == set():\n", "                if not (set(path) & S):\n", what="empty intersection by truthiness")
+V("sp3-c15-sep-any", "C15", "silent", UT, "                if set(path) & S == set():\n", "                if not any(v in S for v in path):\n", what="generator over the path")
+V("sp3-c15-cc-while", "C15", "silent", UT, "    while len(to_visit) > 0:\n        for j in to_visit:", "    while to_visit:\n        for j in to_visit:", what="set truthiness")
+V("sp3-c15-paths-not-list", "C15", "silent", UT, "        elif to_visit == []:\n", "        elif not to_visit:\n", what="empty list by truthiness")
+V("sp3-c15-paths-len", "C15", "silent", UT, "        elif to_visit == []:\n", "        elif len(to_visit) == 0:\n", what="len == 0")
+V("sp3-c15-paths-dictcomp", "C15", "silent", UT, "    accessible = dict((i, ch(i, A) | neighbors(i, A)) for i in range(len(A)))\n", "    accessible = {i: ch(i, A) | neighbors(i, A) for i in range(len(A))}\n", what="dict comprehension")
+V("sp3-c15-paths-list", "C15", "silent", UT, "    accessible = dict((i, ch(i, A) | neighbors(i, A)) for i in range(len(A)))\n", "    accessible = [ch(i, A) | neighbors(i, A) for i in range(len(A))]\n", what="list indexed by node")
+V("sp3-c15-paths-pop", "C15", "silent", UT, "        current_node, visited, to_visit = stack[0]\n        if current_node == to:\n            paths.append(visited + [current_node])\n            stack = stack[1:]\n        elif to_visit == []:\n            stack = stack[1:]\n",
+  "        current_node, visited, to_visit = stack[0]\n        if current_node == to:\n            paths.append(visited + [current_node])\n            stack.pop(0)\n        elif to_visit == []:\n            stack.pop(0)\n", what="pop(0) for slicing")
+# C16
+V("sp3-c16-skeleton-or", "C16", "silent", UT, "return ((A + A.T) != 0).astype(int)", "return ((A != 0) | (A.T != 0)).astype(int)", what="logical or of the two patterns")
+V("sp3-c16-skeleton-abs", "C16", "silent", UT, "return ((A + A.T) != 0).astype(int)", "return ((np.abs(A) + np.abs(A.T)) != 0).astype(int)", what="sum of magnitudes")
+V("sp3-c16-moral-copy", "C16", "silent", UT, "    moral = skeleton(A)\n    for (i, _, j) in vstructures(A):", "    moral = skeleton(A).copy()\n    for (i, _, j) in vstructures(A):", what="explicit copy")
+V("sp3-c16-moral-named", "C16", "silent", UT, "    for (i, _, j) in vstructures(A):\n        moral[i, j] = 1\n        moral[j, i] = 1\n", "    for vs in vstructures(A):\n        moral[vs[0], vs[2]] = 1\n        moral[vs[2], vs[0]] = 1\n", what="indexing the triple")
+# C07 / C10
+V("sp3-c07-all-dags-listcomp", "C07", "silent", UT, "    dags = [A for A in dags if is_dag(A) and is_consistent_extension(A, pdag)]\n    return np.array(dags)\n", "    members = []\n    for A in dags:\n        if is_dag(A) and is_consistent_extension(A, pdag):\n            members.append(A)\n    return np.array(members)\n", what="explicit loop for the filter")
+V("sp3-c07-all-dags-not", "C07", "silent", UT, "        oriented_edges[flipped == False, :] = undirected_edges[:, [0, 1]][flipped == False]\n", "        oriented_edges[~flipped, :] = undirected_edges[~flipped]\n", what="~mask and identity column order")
+V("sp3-c07-all-dags-stack", "C07", "silent", UT, "    dags = [A for A in dags if is_dag(A) and is_consistent_extension(A, pdag)]\n    return np.array(dags)\n", "    dags = [A for A in dags if is_dag(A) and is_consistent_extension(A, pdag)]\n    return np.stack(dags) if dags else np.array(dags)\n", what="np.stack")
+
